@@ -162,6 +162,7 @@ impl<'a> G<'a> {
             check_every: *r.pick(&[0u32, 1, 3, 7]),
             stickiness: *r.pick(&[0u8, 30, 50, 70, 90]),
             sched_seed: r.next(),
+            starve_on_drop: 0,
         };
         let incompressible_pct = *r.pick(&[0u64, 20, 50]);
         Self {
